@@ -16,6 +16,9 @@ segments `k<hex|~>` / `i<n>` joined with `/`; leaf = `T` | `A` | `a<kind>:<hex|~
   tomldecode <doc>         MODEL of encoding/toml.Decoder: `err dupKey|arrayAsTable|keyAsArray|panic`,
                            `conflict` (the facts are contradictory: CUE reports conflicting values),
                            or `ok <facts>` (closed)
+  tomlphase <doc>          MODEL, decoding phase only: `err …` | `ok` (used for randomly mutated
+                           documents, where two LIST literals may meet at one path and the facts
+                           abstraction of CUE's unification is not exact, see Model/Toml.lean)
   tomlvalid <doc>          SPEC: `accept` | `reject`
   tomldata <doc> <facts>   SPEC as judge of the implementation's answer: `agree` when the document
                            is invalid (nothing promised) or its meaning has exactly these facts,
@@ -209,6 +212,13 @@ def handle (ws : List String) : String :=
       match decode evs with
       | .error e => "err " ++ errStr e
       | .ok fs => if conflictB fs then "conflict" else "ok " ++ showFacts fs
+  | ["tomlphase", d] =>
+    match parseDoc d with
+    | none => "bad-op"
+    | some evs =>
+      match decode evs with
+      | .error e => "err " ++ errStr e
+      | .ok _ => "ok"
   | ["tomlvalid", d] =>
     match parseDoc d with
     | none => "bad-op"
